@@ -213,6 +213,33 @@ void harness (void)
   xv_des_keys = 0; xv_des_blocks = 0; xv_des_key_set = 0; xv_des_salt_set = 0;
 #endif
 #endif
+#if !defined XV_NATIVE && !defined WEAK && (defined M_md5crypt || defined M_sha256crypt || defined M_sha512crypt)
+  {
+    /* specification-side parse of the salt span (crypt(5)): after the prefix
+       and an optional rounds=<digits>$ field, up to the first $ or the end,
+       at most 8 (md5crypt) / 16 (sha*crypt) characters */
+    size_t off = 3;
+#if !defined M_md5crypt
+    static const char rp_[8] = "rounds=";
+    bool cust = set_len >= 10;
+    for (unsigned i = 0; i < 7; i++)   /* XV_UNWIND 7 */
+      if (cust && set[3 + i] != (unsigned char) rp_[i]) cust = false;
+    size_t nd_ = 0; bool run_ = true;
+    for (size_t k = 0; k < 12; k++)   /* XV_UNWIND 12 */
+      if (cust && run_) { if (10 + k < set_len && xv_is_digit (set[10 + k])) nd_++; else run_ = false; }
+    if (cust) off = 10 + nd_ + 1;
+    const size_t maxs = 16;
+#else
+    const size_t maxs = 8;
+#endif
+    size_t sl = 0; bool end_ = false;
+    for (size_t k = 0; k < 16; k++)   /* XV_UNWIND 16 */
+      if (!end_ && k < maxs) { if (off + k >= set_len || set[off + k] == '$') end_ = true; else sl++; }
+    xv_setting_p = set; xv_salt_off = off; xv_salt_n = sl; xv_salt_span_set = 1; xv_salt_absorbed = 0;
+  }
+#elif !defined XV_NATIVE
+  xv_salt_span_set = 0;
+#endif
   errno = 0;
   METHOD_FN ((const char *) phr, phr_len, (const char *) set, set_len, out, out_size, scr->b, scr_size);
   int err = errno;
@@ -251,6 +278,7 @@ void harness (void)
   XV_ASSERT ("C06", gk >= 22 || xv_is_b64 (out[3 + s + 1 + gk]), "digest characters are from ./0-9A-Za-z");
   XV_ASSERT ("C06", gk > 3 + s + 22 || xv_passwd_safe (out[gk]), "every character is passwd-safe");
   XV_ASSERT ("C03", xv_phrase_absorbed >= 3, "the whole phrase is absorbed by the digest");
+  XV_ASSERT ("C01,C03", xv_salt_absorbed >= 2, "the salt span is absorbed by the digest");
   /* C02 encoding layer: FreeBSD md5crypt's byte permutation of the final digest */
   {
     const unsigned char *d = xv_md5_last;
